@@ -149,6 +149,8 @@ struct Run {
     second_call: Option<(u64, u64)>,
     waiter_ret: Option<(u64, u64)>,
     unexpected_panics: Vec<String>,
+    /// connection id → seq at which accept() handed it out
+    os_accepted: BTreeMap<usize, u64>,
 }
 
 thread_local! {
@@ -392,7 +394,7 @@ async fn client(i: usize, cs: ConnScript, listeners: Vec<SharedListener>, ret: t
 fn to_mode(m: &Mode) -> ShutdownMode {
     match m {
         Mode::Forced => ShutdownMode::Forced,
-        Mode::Graceful { timeout_ms } => ShutdownMode::Graceful { timeout: Duration::from_millis(*timeout_ms) },
+        Mode::Graceful { timeout_ms } => ShutdownMode::Graceful { timeout: if *timeout_ms == u64::MAX { Duration::MAX } else { Duration::from_millis(*timeout_ms) } },
     }
 }
 
@@ -481,6 +483,14 @@ async fn driver(script: Script) {
         }
     }
     slog!("driver done");
+    for l in &listeners {
+        let g = l.lock().unwrap();
+        run_mut(|r| {
+            for (c, q) in &g.accepted_conns {
+                r.os_accepted.insert(*c, *q);
+            }
+        });
+    }
     drop(ret_tx);
 }
 
@@ -520,7 +530,7 @@ fn evaluate(script: &Script, run: &Run, out: &mut RunOut) {
     };
     let Some((call_seq, call_ns)) = run.t_call else { return };
     let graceful_timeout_ns = match sd.mode {
-        Mode::Graceful { timeout_ms } => Some(timeout_ms * 1_000_000),
+        Mode::Graceful { timeout_ms } => Some(timeout_ms.saturating_mul(1_000_000)),
         Mode::Forced => None,
     };
     // Effective mode as seen by the acceptor: the first command to reach it wins; with a second
@@ -541,10 +551,10 @@ fn evaluate(script: &Script, run: &Run, out: &mut RunOut) {
             if !ambiguous && !second_called_first {
                 match graceful_timeout_ns {
                     Some(to) => {
-                        if took > to + SLACK_NS {
+                        if took > to.saturating_add(SLACK_NS) {
                             out.violations.push(viol("bounded-resolution", "graceful exceeded timeout".into(), format!("graceful shutdown with timeout {} ms resolved after {} ns", to / 1_000_000, took)));
                         }
-                        if took + SLACK_NS >= to {
+                        if took.saturating_add(SLACK_NS) >= to {
                             out.count("probe_timeout_elapsed", 1);
                         }
                     }
@@ -606,6 +616,18 @@ fn evaluate(script: &Script, run: &Run, out: &mut RunOut) {
             }
         }
     }
+    // 1b. after the call no new connection is accepted: simulated time moves only when no thread
+    // is runnable, so a connection attempt made at a strictly later instant than the call finds
+    // an acceptor that has processed the command — the listener must be closed (refused) or at
+    // least must not hand the connection out.
+    for (ci, c) in run.conns.iter().enumerate() {
+        if c.connect_seq > call_seq && c.connect_ns > call_ns {
+            out.count("probe_connect_strictly_after_call", 1);
+            if let Some(q) = run.os_accepted.get(&ci) {
+                out.violations.push(viol("no-accept-after-call", format!("accepted while draining refused={}", c.refused), format!("conn{ci} connected at {} ns, after shutdown(Graceful) had been called at {} ns, and accept() still handed it out (seq {q})", c.connect_ns, call_ns)));
+            }
+        }
+    }
     // 2. drain: class-A requests get their answer
     let mut stalled_mid_request = false;
     for (ci, c) in run.conns.iter().enumerate() {
@@ -638,7 +660,7 @@ fn evaluate(script: &Script, run: &Run, out: &mut RunOut) {
             && !c.dropped_busy
             && cs.fault == ConnFault::None
             && matches!(cs.kind, ConnKind::Full | ConnKind::Delayed { .. } | ConnKind::KeepAlive { .. })
-            && cs.handler_ms * 1_000_000 + SLACK_NS < timeout_ns
+            && (cs.handler_ms * 1_000_000).saturating_add(SLACK_NS) < timeout_ns
             && (never_polled_before_call || head_read_before_call);
         if !class_a {
             continue;
@@ -680,6 +702,21 @@ fn evaluate(script: &Script, run: &Run, out: &mut RunOut) {
                     got
                 ),
             ));
+        }
+    }
+    // 3a. … and not before: if the future resolved before the timeout had elapsed, no handler may
+    // have been running at that moment (a handler that logged its end after the resolution was).
+    if let Some((ret_seq, ret_ns)) = run.t_ret {
+        if (ret_ns - call_ns).saturating_add(SLACK_NS) < timeout_ns {
+            for (id, r) in &run.reqs {
+                if let (Some((s, _)), Some((e, _))) = (r.handler_start, r.handler_end) {
+                    if s < ret_seq && e > ret_seq {
+                        out.violations.push(viol("resolves-not-before-idle", "handler still running".into(), format!("graceful shutdown resolved {} ns after the call (timeout {} ms) while the handler of req{id} was still running", ret_ns - call_ns, timeout_ns / 1_000_000)));
+                        break;
+                    }
+                }
+            }
+            out.count("probe_resolved_before_timeout", 1);
         }
     }
     // 3b. resolves once all workers are idle
@@ -825,7 +862,7 @@ fn gen_mode(rng: &mut Rng) -> Mode {
     if rng.chance(1, 5) {
         Mode::Forced
     } else {
-        Mode::Graceful { timeout_ms: *rng.pick(&[50, 200, 1000, 5000, 60_000]) }
+        Mode::Graceful { timeout_ms: *rng.pick(&[50, 200, 200, 1000, 1000, 5000, 60_000, 60_000, u64::MAX]) }
     }
 }
 
@@ -872,6 +909,7 @@ impl Sim for SrvSim {
             Some(ShutdownScript { mode: Mode::Graceful { timeout_ms }, .. }) => *timeout_ms,
             _ => 200,
         };
+        let timeout_ms = if timeout_ms == u64::MAX { 500 } else { timeout_ms };
         let at = shutdown.as_ref().map(|s| s.at_ns).unwrap_or(50_000);
         let n = match rng.below(10) {
             0 => 0,
